@@ -94,6 +94,11 @@ def search_bfs():
     t.append(T('bfs_cond_keyword', [OP('cond', EQ(q, P(0)), [EQ(q, P(1)), NE(q, P(0))])], 'multiset'))
     t.append(T('bfs_fresh_shadow', [FRESH(['x'], EQ(x, P(0)), FRESH(['x'], EQ(x, P(1)), EQ(q, x)))], 'multiset'))
     t.append(T('bfs_disj_node', [FRESH(['x'], EQ(q, L(x, P(0))), OP('bfsor', REL('member', x, L(P(1), P(2))), [EQ(x, P(0)), NE(x, P(1))], FALSE, EQ(x, P(3))))], 'multiset'))
+    t.append(T('bfs_conde_true_last', [OP('conde', EQ(q, P(0)), EQ(q, P(1)), TRUE)], 'multiset'))
+    t.append(T('bfs_conde_true_mid', [OP('conde', EQ(q, P(0)), TRUE, EQ(q, P(1)))], 'multiset'))
+    t.append(T('bfs_conde_empty_conj_last', [FRESH(['x'], EQ(q, L(x, P(0))), OP('conde', EQ(x, P(1)), []))], 'multiset'))
+    t.append(T('bfs_disj_node_succeed_operand', [OP('bfsor', TRUE, EQ(q, P(0)), EQ(q, P(1)))], 'multiset'))
+    t.append(T('bfs_disj_node_succeed_last', [OP('bfsor', EQ(q, P(0)), EQ(q, P(1)), TRUE)], 'multiset'))
     t.append(T('bfs_conde_in_conj_last', [FRESH(['x'], EQ(q, L(x, P(0))), OP('conde', EQ(x, P(1)), EQ(x, P(2)), EQ(x, P(0))), NE(x, P(0)))], 'multiset'))
     return t
 
@@ -146,6 +151,8 @@ def committed():
     t.append(T('conda_two_lazy_failing_heads', [OP('conda', [REL('member', far, L(P(0))), EQ(q, P(0))], [REL('member', far, L(P(1), P(2))), EQ(q, P(1))], [EQ(q, P(2))], [EQ(q, P(0))])], 'multiset'))
     t.append(T('conda_lazy_succeeding_head', [FRESH(['x'], EQ(q, x), OP('conda', [REL('member', x, L(P(0), P(1))), NE(x, P(2))], [EQ(x, P(2))]))], 'multiset'))
     t.append(T('onceo_lazy_head', [FRESH(['x'], EQ(q, x), ('onceo', [REL('append', L(P(0)), L(P(1)), x)]))], 'multiset'))
+    t.append(T('condu_head_immediate_cons', [OP('condu', [OP('conde', TRUE, TRUE), EQ(q, P(0))], [EQ(q, P(1))])], 'multiset'))
+    t.append(T('conda_head_immediate_cons', [FRESH(['x'], EQ(q, x), OP('conda', [OP('conde', TRUE, EQ(x, P(0))), NE(x, P(1))], [EQ(x, P(2))]))], 'multiset'))
     t.append(T('onceo_second_goal_many', [FRESH(['x', 'y'], EQ(q, L(x, y)), ('onceo', [EQ(x, P(0)), ('dfs', [mem(y, (1, 2))])]))], 'multiset'))
     return t
 
@@ -175,6 +182,9 @@ def branches():
     abc_ = L(V('a'), V('b'), V('c'))
     t.append(T('iso_hidden_labeling_other_branch', [OP('conde', EQ(q, P(0)), FRESH(['a', 'b', 'c'], EQ(q, P(1)), INFD(abc_, [1, 2]), REL('distinctfd', abc_)))], 'multiset', 40))
     t.append(T('iso_hidden_labeling_shared_prefix', [FRESH(['a'], INFD(V('a'), [1, 2, 3]), OP('conde', EQ(q, P(0)), FRESH(['b', 'c', 'd'], EQ(q, P(1)), INFD(L(V('b'), V('c'), V('d')), [1, 2]), REL('distinctfd', L(V('b'), V('c'), V('d'))))))], 'multiset', 40))
+    t.append(T('iso_distinct_constraint_shared', [FRESH(['x', 'y', 'z'], EQ(q, L(x, y, z)), INFDR(L(x, y, z), 0, 3), REL('distinctfd', L(x, y, z)), OP('conde', EQ(L(x, y, z), L(P(0), P(0), P(1))), EQ(L(x, y, z), L(P(0), P(1), P(2))), [EQ(L(x, y), L(P(1), P(1)))], EQ(L(x, y, z), L(P(2), P(1), P(0)))))], 'multiset', 60))
+    t.append(T('iso_plusz_in_branch', [OP('conde', REL('plusz', P(0), P(1), q), EQ(q, P(2)), NE(q, P(0)))], 'multiset', 40))
+    t.append(T('iso_plusz_in_branch_prefix', [FRESH(['x'], REL('plusz', q, N(1), x), OP('conde', REL('plusz', P(0), P(1), q), EQ(q, P(2))))], 'multiset', 40))
     t.append(T('iso_hidden_domain_vars_per_branch', [FRESH(['a', 'b', 'c', 'd'], OP('conde', [INFD(V('a'), [1, 2]), EQ(q, N(1))], [INFD(L(V('b'), V('c'), V('d')), [1, 2]), REL('distinctfd', L(V('b'), V('c'), V('d'))), EQ(q, N(2))], [INFD(L(V('a'), V('b')), [1, 2]), REL('diseqfd', V('a'), V('b')), EQ(q, N(3))]))], 'multiset', 40))
     return t
 
@@ -390,6 +400,8 @@ def reify_forms():
     t.append(T('reify_hidden_var_multi_pair3', [FRESH(['x', 'y'], EQ(q, L(x, y)), FRESH(['h'], NE(L(x, h_, y), L(P(0), P(1), P(2))), NE(y, P(0))))], 'multiset'))
     t.append(T('reify_open_list_tail', [FRESH(['t'], EQ(q, LI([P(0)], V('t'))), NE(V('t'), NIL))], 'multiset'))
     t.append(T('reify_open_list_tail_nested', [FRESH(['t', 'h'], EQ(q, L(LI([h_], V('t')), P(0))), NE(V('t'), L(P(1))), NE(h_, P(0)))], 'multiset'))
+    t.append(T('reify_pair_nested_list_constraint', [FRESH(['x', 'z'], EQ(z, L(x)), EQ(q, ('pair', P(0), z)), NE(x, P(1)))], 'multiset'))
+    t.append(T('reify_pair_in_pair_constraint', [FRESH(['x', 'z'], EQ(z, ('pair', x, P(0))), EQ(q, ('pair', P(1), z)), NE(x, P(1)))], 'multiset'))
     t.append(T('reify_pair_field', [FRESH(['x', 'y', 'z'], EQ(z, ('pair', x, y)), EQ(q, L(P(0), z)), NE(y, P(1)))], 'multiset'))
     t.append(T('reify_pair_top', [FRESH(['x', 'y'], EQ(q, ('pair', x, y)), NE(x, P(0)), EQ(y, L(x)))], 'multiset'))
     return t
@@ -410,6 +422,7 @@ def compounds():
     t.append(T('pair_fd_fields', [FRESH(['x', 'y'], EQ(q, PR(x, y)), INFDR(L(x, y), 0, 2), REL('ltfd', x, y))], 'multiset', 40))
     t.append(T('pair_fd_nested', [FRESH(['x', 'y', 'z', 'w'], EQ(z, PR(y, P(0))), EQ(w, PR(x, z)), EQ(q, L(w)), INFDR(L(x, y), 0, 1), REL('diseqfd', x, y))], 'multiset', 40))
     t.append(T('pair_occurs_through_list_field', [FRESH(['x', 'y'], OP('conde', [EQ(y, L(P(1), x)), EQ(x, PR(P(0), y)), EQ(q, N(1))], [EQ(y, LI([P(1)], x)), EQ(PR(y, P(0)), x), EQ(q, N(2))], [EQ(y, L(P(1))), EQ(x, PR(P(0), y)), EQ(q, N(3))]))], 'multiset'))
+    t.append(T('pair_fd_list_field', [FRESH(['x', 'y', 'z'], EQ(z, L(y)), EQ(q, PR(x, z)), INFD(L(x, y), [1, 2]))], 'multiset', 40))
     t.append(T('pair_in_list_reify', [FRESH(['x', 'y', 'z'], EQ(z, PR(x, y)), EQ(q, L(z, x)), EQ(y, P(0)))], 'multiset'))
     return t
 
@@ -448,6 +461,8 @@ def compound_structs():
                                                      [EQ(x, CMP('Node', P(0), SOME(CMP('Leaf', x)))), EQ(q, N(3))], [EQ(x, CMP('Pt', y, y)), EQ(q, N(4))]))], 'multiset'))
     t.append(T('cs_occurs_through_list_field', [FRESH(['x', 'y'], OP('conde', [EQ(y, L(P(1), x)), EQ(x, CMP('Wrap', y)), EQ(q, N(1))], [EQ(y, LI([P(1)], x)), EQ(CMP('Pt', P(0), y), x), EQ(q, N(2))], [EQ(y, L(x)), EQ(x, CMP('Pt', CMP('Leaf', y), P(0))), EQ(q, N(3))], [EQ(y, L(P(1))), EQ(x, CMP('Wrap', y)), EQ(q, N(4))]))], 'multiset'))
     t.append(T('cs_occurs_list_literal_field', [FRESH(['x'], OP('conde', [EQ(x, CMP('Wrap', L(P(0), x))), EQ(q, N(1))], [EQ(CMP('Pt', P(0), LI([P(1)], x)), x), EQ(q, N(2))], [EQ(x, CMP('Wrap', L(P(0), L(x)))), EQ(q, N(3))], [EQ(x, CMP('Wrap', L(P(0)))), EQ(q, N(4))]))], 'multiset'))
+    t.append(T('cs_fd_list_field', [FRESH(['x', 'y'], EQ(q, CMP('Pt', x, L(y))), INFD(L(x, y), [1, 2]))], 'multiset', 40))
+    t.append(T('cs_fd_nested_struct_field', [FRESH(['x', 'y', 'z'], EQ(q, CMP('Pt', x, CMP('Pt', y, z))), INFD(L(x, y, z), [0, 1]), REL('ltefd', x, y))], 'multiset', 40))
     t.append(T('cs_walk_star_nested', [FRESH(['x', 'y', 'z'], EQ(q, CMP('Pt', x, CMP('Leaf', y))), EQ(x, L(y, P(0))), EQ(y, CMP('Wrap', z)), EQ(z, P(1)))], 'multiset'))
     t.append(T('cs_walk_star_option', [FRESH(['x', 'y'], EQ(q, CMP('Node', x, SOME(CMP('Leaf', y)))), EQ(y, L(x)), EQ(x, P(0)))], 'multiset'))
     t.append(T('cs_reify_free_fields', [FRESH(['x', 'y'], EQ(q, CMP('Pt', x, CMP('Leaf', y))), NE(x, P(0)))], 'multiset'))
@@ -476,7 +491,7 @@ def finite_domains(tier='quick'):
     out = []
     import os
     seed = int(os.environ.get('VERIF_SEED', '0') or 0)
-    for (name, prog_, npar, mode, limit, extra) in _finite_domains() + random_fd_programs(seed, 12 if tier == 'quick' else 200):
+    for (name, prog_, npar, mode, limit, extra) in _finite_domains() + random_fd_programs(seed, 12 if tier == 'quick' else 60):
         extra = dict(extra)
         extra['hash_modes'] = modes
         out.append((name, prog_, npar, mode, limit, extra))
@@ -540,6 +555,10 @@ def _finite_domains():
     t.append(T('fd_nested_list_query_free', [FRESH(['x', 'y', 'z'], EQ(q, L(L(x, y), z)), INFDR(L(x, y, z), 0, 1))], 'multiset', 60))
     t.append(T('fd_nested_list_query_sum', [FRESH(['s', 'x', 'y'], EQ(q, L(V('s'), L(x, y))), INFDR(L(x, y), 0, 2), INFDR(V('s'), 0, 4), REL('plusfd', x, y, V('s')), REL('ltefd', x, y))], 'multiset', 60))
     t.append(T('fd_hidden_pigeonhole_backtrack', [FRESH(['a', 'b', 'c', 'd'], INFDR(q, 0, 1), INFD(V('a'), [0, 3]), INFDR(L(V('b'), V('c'), V('d')), 0, 2), REL('distinctfd', L(V('a'), V('b'), V('c'), V('d'))), REL('ltefd', q, V('a')))], 'multiset', 60))
+    t.append(T('fd_singleton_domain_after_constraint', [FRESH(['x', 'y'], EQ(q, L(x, y)), REL('ltefd', x, y), OP('conde', [INFD(x, [2]), INFD(y, [1])], [INFD(x, [1]), INFD(y, [2])], [INFD(y, [0]), INFD(x, [0, 1]), INFD(x, [1, 2])]))], 'multiset', 40))
+    t.append(T('fd_singleton_domain_plus', [FRESH(['x', 'y'], EQ(q, L(x, y)), REL('plusfd', x, y, P(0)), INFD(x, [1]), INFD(y, [0, 1, 2]), INFD(y, [2, 3]))], 'multiset', 40))
+    t.append(T('fd_hidden_alias_square', [FRESH(['x', 'y'], INFDR(L(x, y), 0, 3), EQ(x, y), REL('timesfd', x, x, q), INFDR(q, 0, 9))], 'multiset', 40))
+    t.append(T('fd_hidden_alias_diseq', [FRESH(['x', 'y'], INFDR(L(x, y), 0, 1), EQ(y, x), REL('diseqfd', x, y), EQ(q, P(0)))], 'multiset', 40))
     t.append(T('fd_list_query', [FRESH(['x', 'y'], EQ(q, L(L(x), y)), INFDR(L(x, y), 0, 1), REL('diseqfd', x, y))], 'multiset', 40))
     return t
 
@@ -599,6 +618,7 @@ def permutations_family(max_perms=6):
         ('pj', ['x', 'y'], [EQ(q, L(x, y)), INFD(x, [1, 2]), EQ(L(x, y), L(y, P(0)))]),
         ('pl', ['x', 'y', 'a', 'b'], [EQ(q, L(x, y)), REL('ltefd', x, y), EQ(x, V('a')), EQ(y, V('b')), EQ(V('a'), P(0)), EQ(V('b'), P(1))]),
         ('pm', ['x', 'y', 'a'], [EQ(q, L(x, y)), REL('diseqfd', x, y), EQ(x, V('a')), EQ(V('a'), P(0)), EQ(y, P(1))]),
+        ('pn', ['x', 'y'], [EQ(q, L(x, y)), REL('distinctfd', L(x, y)), EQ(x, P(0)), INFD(y, [0, 1, 2])]),
         ('pk', ['x', 'y'], [EQ(q, L(x, y)), EQ(x, P(0)), EQ(y, P(1)), REL('ltfd', x, y), REL('diseqfd', x, P(2))]),
     ]
     for name, vs, goals in bases:
@@ -615,6 +635,7 @@ def permutations_family(max_perms=6):
     dis = [
         ('da', [[EQ(q, P(0))], [EQ(q, P(1)), NE(q, P(0))], [FRESH(['x'], EQ(q, L(x)), NE(x, P(2)))]]),
         ('db', [[REL('member', q, L(P(0), P(1)))], [EQ(q, P(2))], [FALSE], [EQ(q, P(0))]]),
+        ('dc', [[EQ(q, P(0))], [TRUE], [EQ(q, P(1))]]),
     ]
     for name, cls in dis:
         base = [('conde', cls)]
@@ -824,5 +845,5 @@ def random_dfs_programs(seed, n, tag='rd'):
         vs = ['x', 'y', 'z'][:rng.randrange(2, 4)]
         goals = [_rgoal_dfs(rng, vs, 2) for _ in range(rng.randrange(2, 5))]
         goals.insert(rng.randrange(len(goals) + 1), EQ(q, L(*[V(v) for v in vs])))
-        out.append(T('%s%d_s%d' % (tag, i, seed), [FRESH(vs, ('dfs', goals))], 'sequence', 200, max_steps=12000000))
+        out.append(T('%s%d_s%d' % (tag, i, seed), [FRESH(vs, ('dfs', goals))], 'sequence', 200, max_steps=6000000))
     return out
